@@ -4,6 +4,7 @@ from __future__ import annotations
 import itertools
 import math
 import random
+import re
 from fractions import Fraction
 from typing import Any, Dict, List, Optional, Tuple
 
@@ -66,7 +67,9 @@ RULE = ("tail: every unit name x letter-case variants (all-lower, all-upper, tit
         "code points the regex engine folds) x spacing before the unit x inner whitespace for two-word names x "
         "{'', ' of', ' of the', odd spacing/case} x following text (boundary and non-boundary), through "
         "compile(['3<text>']); convert: all ordered pairs of names plus unknown names; sorted: every name and unknown "
-        "names; alt/equal: generated quantities incl. values differing by about 1e-9 relative; a case is non-trivial "
+        "names; render: the real render_quantity (string-exact against Model/Html.v, alternative-unit list parsed: "
+        "every other unit of the kind once with value x factor), every name with value 0 / 0.0 / Fraction(0); "
+        "alt/equal: generated quantities incl. values differing by about 1e-9 relative; a case is non-trivial "
         "when it involves a known unit name; distinct = distinct input")
 
 # ---------------------------------------------------------------- independent reference (oracle only)
@@ -375,6 +378,44 @@ def alt_case(value, unit: str) -> Case:
                 tags=["alt:known" if k else "alt:unknown", "alt:" + type(value).__name__])
 
 
+def render_case(value, unit: Optional[str], sp: str, prep: str) -> Case:
+    """The real render_quantity: compared string for string with the model, and its alternative-unit list checked."""
+    import html as H
+    import recipe_grid.recipe as R
+    from recipe_grid.renderer.html import render_quantity
+    from recipe_grid.number_formatting import format_number
+    q = R.Quantity(value, unit, sp if unit is not None else "", prep)
+    r = run_res(lambda: render_quantity(q))
+    viol = None
+    k = kind_of(unit.lower()) if unit is not None else None
+    if r[0] == "ok" and k is not None and unit.isascii() and abs(value) < 10 ** 300:      # type: ignore[union-attr]
+        US = _us()
+        canon = [u.names[0] for u in US.unit_sets[k].units]
+        me = US.unit_sets[k].normalise_unit_name(unit.lower())        # type: ignore[union-attr]
+        items = [H.unescape(re.sub(r"<[^>]*>", "", x)) for x in re.findall(r"<li>(.*?)</li>", r[1], re.S)]
+        want = {}
+        for n in canon:
+            if n != me:
+                want[n] = format_number(value * US.convert_between(unit.lower(), n))   # type: ignore[union-attr]
+        got_units = [it[len(it.rstrip("abcdefghijklmnopqrstuvwxyz ")):].strip() for it in items]
+        if sorted(got_units) != sorted(want):
+            viol = (f"render_quantity({value!r} {unit!r}): the alternative-unit list shows {got_units}, "
+                    f"the other units of kind {k} are {sorted(want)}")
+        else:
+            for it, n in zip(items, got_units):
+                shown = it[:len(it) - len(n)].rstrip().replace("\u2044", "/")
+                if shown != want[n]:
+                    viol = f"render_quantity({value!r} {unit!r}): {n} shown as {shown!r}, value x factor is {want[n]!r}"
+    elif r[0] == "err" and k is not None and abs(value) < 10 ** 300:
+        viol = f"render_quantity({value!r} {unit!r}) raised {r[1]}"
+    qt = (f"(mkQ {coqio.num(value)} {coqio.opt(coqio.string(unit) if unit is not None else None, 'str')} "
+          f"{coqio.string(q.value_unit_spacing)} {coqio.string(prep)})")
+    return Case(input={"suite": "render", "value": coqio.num_json(value), "unit": unit, "sp": sp, "prep": prep},
+                coq_in=qt, coq_out=res_term(r, coqio.string), impl=res_json(r, lambda x: x), violation=viol,
+                nontrivial=k is not None, tags=["render:known" if k else "render:other", "render:" + type(value).__name__]
+                + (["render:zero"] if value == 0 else []))
+
+
 # ---------------------------------------------------------------- suite: has_equal_value_to
 
 def quantity_term(v, u) -> str:
@@ -487,6 +528,8 @@ def _suites_empty() -> Dict[str, Suite]:
                         show="iter_conversions_from", shard=100),
         "alt": Suite("alt", imp, "num * str", "res (list (num * str))", "check_alt_forms",
                      show="(fun i => alt_forms (fst i) (snd i))", shard=200),
+        "render": Suite("render", ["From RG Require Import Gen.GenUnits Model.Recipe Model.Table Model.Units Model.Html."],
+                        "quantity", "res str", "check_render_quantity", show="render_quantity", shard=150),
         "equal": Suite("equal", imp, "quantity * quantity", "res bool", "check_equal_value",
                        show="(fun i => has_equal_value_to (fst i) (snd i))", shard=300),
         "lower": Suite("lower", imp, "str", "str", "check_lower", show="py_lower", shard=400),
@@ -537,6 +580,17 @@ def suites(tier: str, seed: int) -> List[Suite]:
         S["alt"].cases.append(alt_case(rng.choice([1, 3, Fraction(1, 2), 2.5]), u))
     for u in ["spam", "tea  spoon", "pint\u017f", "KG", "T\u0130N", "Handful", "", "<b>"]:
         S["alt"].cases.append(alt_case(rand_value(rng), u))
+    zeros = [0, 0.0, Fraction(0)]
+    for u in names:
+        for zv in zeros:
+            S["alt"].cases.append(alt_case(zv, u))
+            S["render"].cases.append(render_case(zv, rng.choice([u, u.upper(), u.title()]), rng.choice(["", " "]), rng.choice(["", " of"])))
+        S["render"].cases.append(render_case(rng.choice([1, 3, Fraction(1, 2), 2.5, Fraction(7, 4)]), u, " ", ""))
+    for _ in range(150 if tier == "quick" else 2500):
+        u = rng.choice(names + [None, "spam", "tea  spoon", "<b>"])
+        if u is not None:
+            u = rng.choice([u, u.upper(), u.title()])
+        S["render"].cases.append(render_case(rand_value(rng), u, rng.choice(["", " ", "  "]), rng.choice(["", " of", " of the", " <&>"])))
     S["alt"].cases.append(alt_case(10 ** 400, "lb"))
     S["alt"].cases.append(alt_case(10 ** 400, "kg"))
 
@@ -576,6 +630,8 @@ def replay(inp: Any) -> Case:
         return sorted_case(inp["name"])
     if su == "alt":
         return alt_case(coqio.num_unjson(inp["value"]), inp["unit"])
+    if su == "render":
+        return render_case(coqio.num_unjson(inp["value"]), inp["unit"], inp["sp"], inp["prep"])
     if su == "equal":
         return equal_case(coqio.num_unjson(inp["a"][0]), inp["a"][1], coqio.num_unjson(inp["b"][0]), inp["b"][1])
     if su == "lower":
